@@ -20,7 +20,8 @@
     _simplify_parts(_helper)
 
   The model describes the code AFTER the `fix:` commits of branch fix-expr (total structural sort key, Sum.simplify
-  superset branch); see known_findings.jsonl.
+  superset branch) and of fix-expr5 (Sum.simplify leaves a sum alone when several children of the joint share a base
+  variable); see known_findings.jsonl.
 
   Conventions.  `frozenset` fields (Sum.ranges, interventions) are lists kept sorted and duplicate free; Python set
   iteration order never matters for the modelled functions except where noted.  Well-formedness (`Expr.wf`) collects
@@ -219,13 +220,15 @@ def sumSafe0 (e : Expr) (ranges : List Var) : Expr :=
 /-- value of the dict `{child.get_base(): child for child in children}` at key `k` (the last child wins) -/
 def lastWithBase (c : List Var) (k : Var) : Option Var := (c.filter (fun v => v.base = k)).getLast?
 
-/-- `Sum(e, rs).simplify()` (after the fix of the superset branch) -/
+/-- `Sum(e, rs).simplify()` (after the fix of the superset branch, and after the fix that leaves the sum alone when
+several children share a base variable: `if len(children) != len(expression.children): return self`) -/
 def sumSimplify (e : Expr) (rs : List Var) : Expr :=
   match e with
   | .prob pop c [] =>
     let keys := dedup' (c.map Var.base)           -- dict keys in insertion order
     let vals := fun (ks : List Var) => (inter' keys ks).filterMap (lastWithBase c)
-    if seteq' rs keys then .one
+    if keys.length != c.length then .sum e rs     -- a base variable with several children: nothing is marginalised
+    else if seteq' rs keys then .one
     else if subset' keys rs then sumSafe0 .one (diff' rs keys)
     else if subset' rs keys then .prob pop (upgradeOrdering (vals (diff' keys rs))) []
     else
